@@ -13,7 +13,7 @@ R6.5 consume = match: on every path of one tokenizer iteration the number of par
 R6.6 payload pass-through: Token::Int/Float/Boolean/String(x) builds Const{Value::<same>(x)} and the Const arm returns a clone.
 Not decided: what i64::from_str / f64::from_str accept and return (trusted std; e.g. that `inf`/`nan` parse as floats)."""
 import tables
-from absint import Interp, SYM, C, ADT, OK, ERR, SOME, NONE, Fork, Stop, fmt, is_adt, Budget, subst, P_OK, P_ERR, P_SOME, expand_results, apps, has_subterm
+from absint import UNK, Interp, SYM, C, ADT, OK, ERR, SOME, NONE, Fork, Stop, fmt, is_adt, Budget, subst, P_OK, P_ERR, P_SOME, expand_results, apps, has_subterm
 from mirlib import short, path_endswith, callee_matches, op_place, resolve_place
 from rules.tokpaths import iteration_paths, lookahead_index, TOK
 from rules.treepaths import branches_of, is_true, seed
@@ -39,6 +39,7 @@ def run(ctx):
     paths = r63_65(ctx, prog)
     r64(ctx, prog)
     r66(ctx, prog)
+    r67(ctx, prog)
 
 
 def char_case(br):
@@ -313,6 +314,36 @@ def r64(ctx, prog):
     core = [(n, a) for v in oks for n, a in apps(v)]
     good = bool(oks) and all(v[0] == 'proj' and v[2] == ('as Ok', '0') and v[1][0] == 'app' and v[1][1].endswith('i64>::from_str_radix') and v[1][2] == (SYM('literal'), C(16)) for v in oks)
     ctx.check(good, 'R6.4', 'hex-radix', 'radix', 'from_hex_str is i64::from_str_radix(literal, 16) (%s)' % s, span=h[0].span)
+
+
+def r67(ctx, prog):
+    """A string token is written quoted and escaped (through `Debug`) by `Display for Token`, the other payload tokens through their own
+    `Display`: the tokenizer re-assembles `<word><sign><next partial token>` through these Display impls when it tries the
+    scientific-notation join, and only the quotes keep the content of a string literal from being read as the exponent of a number
+    (`2e+"3"`), i.e. keep "a string literal denotes exactly its content" and "any other word is an identifier" apart."""
+    from absint import tabulate
+    try:
+        f = tables.display_fn(prog, tables.TOKEN)
+    except tables.TableError as e:
+        ctx.unrecognised('R6.7', 'Display for Token', 'missing', str(e))
+        return
+    names = prog.variants(tables.TOKEN)
+    t = tabulate(prog, f, tables.TOKEN, lambda a: [a, UNK])
+    seen = 0
+    for idx, (_val, eff) in t.items():
+        nm = names[idx]
+        if nm not in ('String', 'Identifier', 'Int', 'Float', 'Boolean'):
+            continue
+        seen += 1
+        fmts = [e_[0] for e_ in eff if not e_[0].startswith('<') or '::fmt' in e_[0]]
+        fmts = [d for d in fmts if d.endswith('::fmt') or 'new_debug' in d or 'new_display' in d]
+        debug = [d for d in fmts if 'fmt::Debug' in d or 'new_debug' in d]
+        display = [d for d in fmts if 'fmt::Display' in d or 'new_display' in d]
+        if nm == 'String':
+            ctx.check(bool(debug) and not display, 'R6.7', 'Display:Token::String', 'quoted', 'a string token is displayed quoted and escaped (Debug), never as its bare content (formatting calls %s)' % [d[:70] for d in fmts], span=f.span)
+        else:
+            ctx.check(bool(display) and not debug, 'R6.7', 'Display:Token::' + nm, 'plain', 'a %s token is displayed through the Display of its payload (formatting calls %s)' % (nm, [d[:70] for d in fmts]), span=f.span)
+    ctx.floor('R6.7', 'payload_tokens', seen, 5)
 
 
 def r66(ctx, prog):
